@@ -28,8 +28,9 @@ class Env(object):
     """with Env(options, plugins, build) as env: ... ; build(env, Base, opts) defines the models."""
 
     def __init__(self, options=None, plugins=None, build=None, url='sqlite://', versioned=True,
-                 autoflush=False, bind_engine=False, attach=None):
+                 autoflush=False, bind_engine=False, attach=None, metadata_schema=None):
         self.attach = attach or []
+        self.metadata_schema = metadata_schema
         self.options = dict(options or {})
         self.plugins = plugins or []
         self.build = build
@@ -49,7 +50,8 @@ class Env(object):
         sc = continuum()
         from sqlalchemy_continuum.transaction import TransactionFactory
         self.sc = sc
-        self.Base = declarative_base()
+        self.Base = (declarative_base(metadata=sa.MetaData(schema=self.metadata_schema)) if self.metadata_schema
+                     else declarative_base())
         self.manager = sc.versioning_manager
         if self.versioned:
             opts = dict(self.options)
